@@ -5,6 +5,9 @@ import MobiusModel.Drain
 import MobiusModel.Generated.Consts
 import MobiusModel.Generated.Readers
 import MobiusModel.Spec.Tables
+import MobiusModel.TranslatedTies
+import MobiusModel.SendPath
+import MobiusModel.AliasNS
 /-!
   C01 — Wire format fidelity of every protocol object.
 
@@ -212,5 +215,217 @@ example : (⟨[84, 69, 88, 84], [116, 116, 120, 116], 5, [0, 0, 0, 0], 0, [97, 4
   simp [FileNameWithInfo.WF]
 example : resumeDecode (resumeEncode [⟨[68, 65, 84, 65], 256⟩]) = .ok [⟨[68, 65, 84, 65], 256⟩] := by decide
 example : drain [1, 2, 3, 4, 5] [2, 1, 1, 7, 1, 1] 0 = ⟨[1, 2, 3, 4, 5], 5, true⟩ := by decide
+
+section SendPathSection
+open Mobius.SendPath
+
+/-! The send path (`SendPath.lean`: `Server.sendTransaction` over whole histories of sends, some of whose
+    `Write` calls fail).  Wave d. -/
+
+/-- What is written for a transaction is its wire layout and nothing else, whatever was sent — or failed to be
+    sent — before: the `Write` calls made for step `s` are the same after ANY two histories. -/
+theorem send_path_no_residue (pre₁ pre₂ : List Step) (s : Step) :
+    (run (pre₁ ++ [s])).drop (run pre₁).length = send s ∧
+    (run (pre₂ ++ [s])).drop (run pre₂).length = send s := by
+  simp [run_append, run]
+
+/-- Every `Write` call of every history offers exactly the layout of one transaction of that history, to its
+    addressee, and that layout has the prefix laws and decodes to the transaction. -/
+theorem send_path_every_write_is_one_layout (h : List Step) (hwf : ∀ s ∈ h, s.t.WFdec) :
+    ∀ c ∈ run h, ∃ s ∈ h, s.registered = true ∧ c.client = s.client ∧ c.outcome = s.outcome ∧
+      c.bytes = s.t.encode ∧ Transaction.decode c.bytes = .ok s.t ∧ c.bytes.length = 20 + rd32 (c.bytes.drop 12) := by
+  intro c hc
+  rw [run_calls] at hc
+  simp only [List.mem_map, List.mem_filter] at hc
+  obtain ⟨s, ⟨hs, hr⟩, rfl⟩ := hc
+  exact ⟨s, hs, hr, rfl, rfl, rfl, transaction_decode_encode s.t (hwf s hs), (transaction_prefixes s.t (hwf s hs)).1⟩
+
+/-- The number of `Write` calls is the number of sends to registered clients: one call per transaction. -/
+theorem send_path_one_write_per_send (h : List Step) :
+    (run h).length = (h.filter (·.registered)).length := by
+  rw [run_calls]; simp
+
+/-- A client all of whose writes succeeded has received a self-delimiting stream that parses to exactly the
+    transactions addressed to it, in order — whatever happened on the other clients' connections (failed
+    writes, short writes) in between. -/
+theorem send_path_stream_of_healthy_client (c : Nat) (h : List Step) (hwf : ∀ s ∈ h, s.t.WFdec)
+    (hok : ∀ s ∈ h, s.client = c → s.registered = true → s.outcome = .ok) :
+    parseStream (received c (run h)) = .ok (delivered c h) := by
+  rw [received_all_ok c h hok]
+  apply stream_selfdelimiting
+  intro t ht
+  unfold delivered stepsOf at ht
+  simp only [List.mem_map, List.mem_filter] at ht
+  obtain ⟨s, ⟨⟨hs, _⟩, _⟩, rfl⟩ := ht
+  exact hwf s hs
+
+/-- What a client receives depends on the sends addressed to it only. -/
+theorem send_path_clients_independent (c : Nat) (h : List Step) :
+    received c (run h) = received c (run (stepsOf c h)) := by
+  unfold received
+  rw [filter_run, filter_run]
+  unfold stepsOf
+  simp [List.filter_filter]
+
+-- non-vacuity: a history with a failed write to client 1 between two sends to client 2
+example : ∀ s ∈ demoHist, s.t.WFdec := by
+  unfold Transaction.WFdec Field.Scannable; decide
+example : ∀ s ∈ demoHist, s.client = 2 → s.registered = true → s.outcome = .ok := by decide
+example : (run demoHist).length = 4 ∧ delivered 2 demoHist = [demoT 1, demoT 4] := by decide
+example : parseStream (received 2 (run demoHist)) = .ok [demoT 1, demoT 4] := by decide +kernel
+/-- The theorems are about `sendTransaction` as written, not about any send path: one that serialises into a
+    recycled buffer which is reset only after a successful write emits, after the failed write of `demoHist`,
+    a call that is not the layout of any transaction (the class of seeded change C01d-1). -/
+example : ¬ ∀ c ∈ Pooled.run [] demoHist, ∃ s ∈ demoHist, c.bytes = s.t.encode := by decide
+
+end SendPathSection
+
+section AliasSection
+open Mobius.AliasNS
+
+/-! Downloads of aliases (`AliasNS.lean`: a namespace with alias chains of any length; sizes through `Stat`,
+    bytes through `Open`, both following the chain).  Wave d. -/
+
+/-- For every namespace, every path that resolves to a file through any chain of aliases, and every request
+    (whole file, or resumed at any offset within the file): the stream is the flattened header followed by
+    exactly the bytes `Open` yields from the offset, then the resource fork part; the header has the length the
+    sizes account for; the reply's file size is the number of data bytes that follow the header and its
+    transfer size the header + those bytes + the stored resource fork; and for a whole-file request the DATA
+    fork size field of the header IS the number of data bytes that follow it. -/
+theorem alias_download_size_prefixes_agree (ns : NS) (p : Nat) (k : Option Nat) (own : Own) (rep : Reply) (s : Bytes)
+    (ho : ownOf ns p = some own) (hty : own.ty.length = 4) (hcr : own.creator.length = 4)
+    (hm : ∀ m n, stat ns p = some (m, n) → m.length = 8 ∧ n < 4294967296)
+    (hd : download ns p k = some (rep, s)) :
+    ∃ data info, openData ns p = some data ∧ k.getD 0 ≤ data.length ∧
+      s = ffoHeader 2 info data.length ++ (data.drop (k.getD 0) ++
+            ((if k.isSome then [] else forkHeader macr (rsrcLen own)) ++ own.rsrc.getD [])) ∧
+      (ffoHeader 2 info data.length).length = 56 + info.size ∧
+      rep.fileSize = (data.drop (k.getD 0)).length ∧
+      rep.transferSize = (ffoHeader 2 info data.length).length + (data.drop (k.getD 0)).length + rsrcLen own ∧
+      (s.drop (56 + info.size)).take rep.fileSize = data.drop (k.getD 0) ∧
+      (k = none → rd32 (s.drop (52 + info.size)) = data.length ∧ (s.drop (56 + info.size)).take data.length = data) := by
+  unfold download at hd
+  rw [ho] at hd
+  cases hst : stat ns p with
+  | none => simp [hst] at hd
+  | some mn =>
+    obtain ⟨mtime, size⟩ := mn
+    obtain ⟨data, hop, hlen⟩ := stat_open ns p mtime size hst
+    obtain ⟨hm8, hsz⟩ := hm mtime size hst
+    simp only [hst, hop] at hd
+    by_cases hoff : k.getD 0 > size
+    · simp [hoff] at hd
+    · simp only [hoff, if_false, Option.some.injEq, Prod.mk.injEq] at hd
+      obtain ⟨hrep, hs⟩ := hd
+      have hf := defaultInfo_fixedWF own mtime hm8 hty hcr
+      subst hlen
+      refine ⟨data, defaultInfo own mtime, hop, by omega, hs.symm, ffoHeader_length _ _ _ hf, ?_, ?_, ?_, ?_⟩
+      · rw [← hrep]; simp
+      · rw [← hrep, ffoHeader_length _ _ _ hf]; simp; omega
+      · rw [← hs, ← hrep, ffoHeader_drop_all _ _ _ _ hf]
+        have : (data.drop (k.getD 0)).length = data.length - k.getD 0 := by simp
+        rw [← this]; exact List.take_left' rfl
+      · intro hk
+        subst hk
+        rw [← hs]
+        refine ⟨?_, ?_⟩
+        · rw [ffoHeader_drop_dsize _ _ _ _ hf, rd32_be32_append]; omega
+        · rw [ffoHeader_drop_all _ _ _ _ hf]; simp
+
+/-- An alias delivers what its target delivers, whatever the length of the chain behind it. -/
+theorem alias_resolves_as_its_target (ns : NS) (p t : Nat) (own : Own) (fuel : Nat)
+    (h : lookup ns p = some (.alias own t)) :
+    resolve (fuel + 1) ns p = resolve fuel ns t := by
+  simp [resolve, h]
+
+-- non-vacuity: the alias of an alias in `demoNS` (path 2) delivers the 5 bytes of the file at path 0
+example : openData demoNS 2 = some [1, 2, 3, 4, 5] ∧ stat demoNS 2 = some (List.replicate 8 0, 5) := by decide
+example : ∃ own, ownOf demoNS 2 = some own ∧ own.ty.length = 4 ∧ own.creator.length = 4 := ⟨_, rfl, by decide, by decide⟩
+example : (download demoNS 2 none).map (fun r => (r.1.fileSize, r.1.transferSize, r.2.length)) = some (5, 138, 154) := by decide +kernel
+example : (download demoNS 2 (some 3)).map (fun r => (r.1.fileSize, r.2.drop 131)) = some (2, [4, 5, 9, 9]) := by decide +kernel
+/-- Not vacuous: a wrapper that takes the size from the link itself (`Lstat`; the class of seeded change C01d-2)
+    announces a size that is not the number of bytes that follow. -/
+example : (downloadLstat demoNS 2 44).map (fun r => decide (r.1 = r.2.length)) = some false := by decide
+
+end AliasSection
+
+/-! Ties by translation (docs/Translator.md): the split / decode functions the decoders above are
+    built from ARE the Go functions of /repo's current source, translated to Lean on every check
+    (`Generated/Translated.lean`) — equal for all inputs.  A semantic change of one of these Go
+    functions (a bound, a constant, an offset, the width of an addition) breaks its theorem.
+    `.panic` on the translated side = Go run-time panic or a slice bound above the length. -/
+
+/-- `FieldScanner` (the inner scanner of `Transaction.Write`, `parseFields`) is `fieldSplit`. -/
+theorem translated_FieldScanner_is_the_model (d : Bytes) (atEOF : Bool) :
+    Generated.Translated.FieldScanner (some d) atEOF = .ok (match fieldSplit d with
+      | none => (0, none, none)
+      | some (adv, tok) => ((adv : Int), some tok, none)) :=
+  TranslatedTies.FieldScanner_translated d atEOF
+
+/-- `transactionScanner` is `tranSplit` (the split function of `parseStream`). -/
+theorem translated_transactionScanner_is_tranSplit (d : Bytes) (atEOF : Bool) :
+    Generated.Translated.transactionScanner (some d) atEOF = .ok (match tranSplit d with
+      | none => (0, none, none)
+      | some (adv, tok) => ((adv : Int), some tok, none)) :=
+  TranslatedTies.transactionScanner_translated_tranSplit d atEOF
+
+/-- `Field.DecodeInt` is `decodeInt` (and neither ever panics). -/
+theorem translated_DecodeInt_is_the_model (d : Bytes) :
+    Generated.Translated.Field_DecodeInt (some d) = .ok (match decodeInt d with
+      | .ok n => ((n : Int), none)
+      | _ => (0, some "unknown byte length")) :=
+  TranslatedTies.DecodeInt_translated d
+
+/-- One step of the `FilePath.Write` item loop of the model is the translated `fileItemScanner` on the
+    remaining data followed by the translated `FilePathItem.Write` on the token; only the reaction of
+    `bufio.Scanner` to a token slice that overruns the data (capacity) is the model's own. -/
+theorem translated_fileItemScanner_is_the_model_step (d : Bytes) (n pos : Nat) :
+    pathDecodeItems d (n + 1) pos =
+      match Generated.Translated.fileItemScanner (some (d.drop pos)) true with
+      | .ok (adv, some tok, _) =>
+        (match Generated.Translated.FilePathItem_Write 0 none (some tok) with
+         | .ok (_, none, _, some name) =>
+           (match pathDecodeItems d n (pos + adv.toNat) with
+            | .ok is => .ok (name :: is)
+            | r => r)
+         | _ => .err)
+      | .ok (_, none, _) => .err
+      | .panic => if pos + 3 + ((d.drop (pos + 2)).headD 0).toNat > scanBufCap then .panic else .err :=
+  TranslatedTies.pathDecodeItems_step_translated d n pos
+
+/-- One step of the `DecodeNewsPath` loop of the model is the translated `newsPathScanner`. -/
+theorem translated_newsPathScanner_is_the_model_step (d : Bytes) (n pos : Nat) (prev : Bytes) :
+    newsPathDecodeItems d (n + 1) pos prev =
+      match Generated.Translated.newsPathScanner (some (d.drop pos)) true with
+      | .ok (adv, some name, _) =>
+        (match newsPathDecodeItems d n (pos + adv.toNat) name with
+         | .ok is => .ok (name :: is)
+         | r => r)
+      | .ok (_, none, _) =>
+        (match newsPathDecodeItems d n pos [] with
+         | .ok is => .ok ([] :: is)
+         | r => r)
+      | .panic =>
+        if pos + 3 + ((d.drop (pos + 2)).headD 0).toNat > scanBufCap then .panic
+        else (match newsPathDecodeItems d n pos prev with
+          | .ok is => .ok (prev :: is)
+          | r => r) :=
+  TranslatedTies.newsPathDecodeItems_step_translated d n pos prev
+
+-- non-vacuity: concrete inputs through the translated functions
+example : Generated.Translated.FieldScanner (some ([0, 105] ++ be16 2 ++ [7, 8, 9])) true
+    = .ok (6, some ([0, 105] ++ be16 2 ++ [7, 8]), none) := by decide
+example : Generated.Translated.Field_DecodeInt (some (be32 70000)) = .ok (70000, none) := by decide
+example : Generated.Translated.fileItemScanner (some [0, 0, 2, 65, 66, 0, 0]) false = .ok (5, some [0, 0, 2, 65, 66], none) := by decide
+example : Generated.Translated.newsPathScanner (some [0, 0, 2, 65, 66, 0, 0]) false = .ok (5, some [65, 66], none) := by decide
+example : pathDecodeItems [0, 0, 2, 65, 66] 1 0 = .ok [[65, 66]] := by decide
+
+/-- `Transaction.Size` (the total-size / data-size bytes `Transaction.Read` writes) is `be32 payloadSize`
+    of the reference encoder, for every transaction (the 32-bit truncation included). -/
+theorem translated_Transaction_Size_is_the_model (t : Transaction) :
+    Generated.Translated.Transaction_Size (t.fields.map fun f => some f.data) = .ok (some (be32 t.payloadSize)) :=
+  TranslatedTies.Size_translated t
+
+example : Generated.Translated.Transaction_Size [some [1, 2, 3], some []] = .ok (some [0, 0, 0, 13]) := by decide
 
 end Mobius.C01
